@@ -208,7 +208,8 @@ pub fn read_pnm(input: impl Read) -> Result<Buf2<Color3>> {
 /// # Errors
 /// Returns [`Error`] in case of an invalid or unrecognized PNM image.
 pub fn parse_pnm(input: impl IntoIterator<Item = u8>) -> Result<Buf2<Color3>> {
-    let mut it = input.into_iter();
+    // The input ends at the first `None`, even if the iterator could resume
+    let mut it = input.into_iter().fuse();
     let h = Header::parse(&mut it)?;
 
     let count = h.dims.0.checked_mul(h.dims.1).ok_or(InvalidNumber)?;
